@@ -11,6 +11,7 @@
 import YtkProofs.Overlay
 import YtkProofs.OverlayRel
 import YtkProofs.MergeRel
+import YtkProofs.OverlayValid
 import YtkModel.Codec
 
 namespace Ytk.C06
@@ -272,6 +273,18 @@ theorem merged_is_rel (o : ListStrategy) (s : Overlay) (hw : ∀ q ∈ s, (Node.
   intro c hc
   obtain ⟨q, hq, rfl⟩ := List.mem_map.mp hc
   exact hw q hq
+
+/-- after any history whose payloads are valid documents every layer is a valid document
+    (keys strictly sorted, none ending in an index group), so the well-formedness hypothesis of
+    `merged_order_independent` holds on every reachable state -/
+theorem layers_valid_run (ops : List Op) (s : Overlay) (hv : ∀ op ∈ ops, op.PayloadValid)
+    (h : run [] ops = .ok s) : ∀ q ∈ s, (Node.cont q.2).Valid :=
+  run_valid ops (fun _ hq => by cases hq) hv h
+
+theorem merged_order_independent_run (o : ListStrategy) (ops : List Op) (s : Overlay)
+    (hv : ∀ op ∈ ops, op.PayloadValid) (h : run [] ops = .ok s)
+    (r : AMap Node) (hr : MergedRel o [] (s.map (·.2)) r) : r = merged o s :=
+  merged_order_independent o s (fun q hq => (layers_valid_run ops s hv h q hq).1) r hr
 
 /-- serialising the overlay serialises the (default-strategy) merged view -/
 theorem serialize_spec {β : Type} (enc : AMap Node → β) (s : Overlay) :
